@@ -1125,3 +1125,11 @@ def _emit_session(case, out):
         checks.append("done_agree %s %s" % (E.b("exc" in o), get % (i, "(OH2 [])")))
     return ("(let s0 := %s in\n  let ops := [%s] in\n  let outs := run s0 ops in\n  %s)"
             % (s0, ";\n    ".join(ops), "\n   && ".join(checks)))
+
+
+# ================================================================== kernel expressions regenerated from the source
+def translate(repo, gen_dir):
+    """regenerate Gen/C14_Kernel.v (kernel expressions of phenotype / set_h2 / set_H2 / the setters / both estimate methods) from
+    the current source; fail closed"""
+    from translate import c14_kernel
+    return [c14_kernel.translate(repo, gen_dir)]
